@@ -9,7 +9,7 @@ package caching
 //@ pred member(ss *Set, k [32]byte) = has(ss.flip, k) || has(ss.flop, k)
 
 //@ func (*Set).Contains
-//@   property C05
+//@   property C05 C01
 //@   modifies auto
 //@   ensures[a_positive_answer_means_the_key_is_stored] result0 ==> result1 == nil && old(member(ss, res(newKey, 1, 0))) && res(newKey, 1, 1) == nil
 //@   ensures[membership_is_unchanged] forall([32]byte(k), member(ss, k) == old(member(ss, k)))
@@ -17,7 +17,7 @@ package caching
 //@     before[key_is_derived_from_namespace_and_value] arg(1) == namespace && arg(2) == v
 
 //@ func (*Set).ContainsOrAdd
-//@   property C05
+//@   property C05 C01
 //@   modifies auto
 //@   ensures[nothing_but_the_given_key_is_added] forall([32]byte(k), member(ss, k) ==> old(member(ss, k)) || (k == res(newKey, 1, 0) && res(newKey, 1, 1) == nil))
 //@   ensures[reports_contained_only_if_it_was] result0 ==> result1 == nil && old(member(ss, res(newKey, 1, 0)))
@@ -25,7 +25,7 @@ package caching
 //@     before[key_is_derived_from_namespace_and_value] arg(1) == namespace && arg(2) == v
 
 //@ func (*Set).Clear
-//@   property C05
+//@   property C05 C01
 //@   modifies auto
 //@   ensures[a_cleared_set_is_empty] forall([32]byte(k), !member(ss, k))
 
@@ -33,7 +33,7 @@ package caching
 // insertion goes through ContainsOrAdd of the requested group's set; a set only ever enters the pool cleared, so a
 // recycled set cannot answer for entries of the evicted group.
 //@ func (*GroupedSet).Contains
-//@   property C05
+//@   property C05 C01
 //@   modifies auto
 //@   maypanic
 //@   at Contains 1
@@ -42,7 +42,7 @@ package caching
 //@     before[positive_only_from_that_sets_answer] arg(0) ==> dominatedBy(Contains, 1) && res(Contains, 1, 0)
 
 //@ func (*GroupedSet).Add
-//@   property C05
+//@   property C05 C01
 //@   modifies auto
 //@   maypanic
 //@   at ContainsOrAdd 1
@@ -51,14 +51,14 @@ package caching
 //@     before[a_new_group_takes_a_set_from_the_pool_only_when_absent] !old(has(gs.groups, g))
 
 //@ func (*GroupedSet).evict
-//@   property C05
+//@   property C05 C01
 //@   modifies auto
 //@   maypanic
 //@   at Put 1
 //@     before[a_set_enters_the_pool_only_cleared_and_detached] dominatedBy(Clear, 1) && argOf(Clear, 1, 0) == set && !has(gs.groups, group)
 
 //@ func (*orderedSet).Clear
-//@   property C05
+//@   property C05 C01
 //@   modifies auto
 //@   at return 0
 //@     before[clears_the_underlying_set] dominatedBy(Clear, 1) && argOf(Clear, 1, 0) == os.Set
